@@ -46,6 +46,17 @@ def host_tz(name: str | None):
         time.tzset()
 
 
+def safe_copy(ctx0: dict) -> dict:
+    """Deep copy of an initial context, keeping values that cannot be copied (locks, files, generators) by reference."""
+    out = {}
+    for k, v in ctx0.items():
+        try:
+            out[k] = copy.deepcopy(v)
+        except Exception:
+            out[k] = v
+    return out
+
+
 @contextlib.contextmanager
 def recorders(log: list):
     from semantiva.pipeline.payload_processors import _PayloadProcessor
@@ -56,8 +67,17 @@ def recorders(log: list):
     current = []
 
     def snap(ctx):
+        # value by value through the public accessors: a value that cannot be copied (a lock, an open file, a generator) is kept
+        # by reference — it is still the same entry of the context
         try:
-            return copy.deepcopy(dict(ctx.to_dict()))
+            out = {}
+            for k in list(ctx.keys()):
+                v = ctx.get_value(k)
+                try:
+                    out[k] = copy.deepcopy(v)
+                except Exception:
+                    out[k] = v
+            return out
         except Exception:
             return None
 
@@ -117,7 +137,7 @@ def logged_run(nodes, ctx0, detail="all", tz=None):
         try:
             with recorders(log):
                 pipe = Pipeline(copy.deepcopy(nodes), trace=JsonlTraceDriver(str(target), detail=detail))
-                out["result"] = pipe.process(Payload(NoDataType(), ContextType(copy.deepcopy(ctx0))))
+                out["result"] = pipe.process(Payload(NoDataType(), ContextType(safe_copy(ctx0))))
         except BaseException as exc:  # noqa: BLE001
             out["exc"] = exc
         out["t1"] = time.time()
